@@ -116,6 +116,14 @@ theorem frame_multiple_of_16 (pos : Nat) :
 
 example : (frameBits 37).length = 91 ∧ frameBytes 37 = 16 := by decide
 
+/-- The stream of an empty weight sequence is the frame alone: 16 bytes of `0xff`, which the
+    reference decoder accepts and decodes to no weight at all (what `mlw_codec.encode([])` returns since
+    the repair; before it the encoder emitted a slice of 32768 values the decoder ran off the end of). -/
+theorem empty_sequence_stream :
+    frameBits 0 = List.replicate 128 true ∧ frameBytes 0 = 16 ∧
+    (decode (List.replicate 16 255)).toOption.map (fun d => (d.weights, d.slices.length, d.sliceEnd)) = some ([], 0, 0) := by
+  decide +kernel
+
 /-! ## the hardware traversal order -/
 
 /-- `reorder_covers`: for depth-first, part-kernel-first and depthwise traversal, any volume shape, any
@@ -202,6 +210,10 @@ theorem reorder_block_depth_hypothesis_needed_witness :
                 decompH := 8, decompW := 8 }).count (some ⟨3, 0, 0, 0⟩) = 2 := by decide +kernel
 
 /-! ## the checker applied to real streams -/
+
+/-- the range predicate the check asks about every probe (`mlwvalid`) decides `WeightsInRange` -/
+theorem range_checker_decides (src : List Int) : weightsInRange src = true ↔ WeightsInRange src :=
+  weightsInRange_iff src
 
 /-- an `ok` verdict of `checkStream` (what `mlwseq` / `mlwcheck` print for a real stream) means:
     the reference decoder returns the expected weights followed only by zeros, the length is a
